@@ -348,6 +348,13 @@ class Word(AV):
     """line[:4]"""
 
 
+class Pref(AV):
+    """line[:n] with n < 4: the first n characters of the keyword"""
+
+    def __init__(self, n):
+        self.n = n
+
+
 class Last(AV):
     """the state variable that remembers the last header keyword (lastcard)"""
 
